@@ -353,11 +353,12 @@ fn strip_some_keys(p: &Prog) -> Prog {
 }
 
 /// Known finding C15-some-key (open): every program with an `Option` key is a spec failure on the pinned tree, and the
-/// driver prints at most 200 failures per run. To keep other violations visible, only one in `SOME_KEY_KEEP` of the random
-/// programs that have such a key is run as generated; in the others the `Some` wrappers are removed from the keys (the
-/// inner key kinds are still exercised). The fixed corpus always contains every `Some(_)` key shape.
-/// Set to 1 once `value::ser::MapKeySerializer::serialize_some` forwards.
+/// driver prints at most 200 failures per run. To keep other violations visible, only one in `SOME_KEY_KEEP` (quick; thorough:
+/// `SOME_KEY_KEEP_THOROUGH`) of the random programs that have such a key is run as generated; in the others the `Some` wrappers
+/// are removed from the keys (the inner key kinds are still exercised). The fixed corpus always contains every `Some(_)` key
+/// shape (100 failing cases). Set both to 1 once `value::ser::MapKeySerializer::serialize_some` forwards.
 const SOME_KEY_KEEP: u64 = 16;
+const SOME_KEY_KEEP_THOROUGH: u64 = 40;
 
 pub fn run(sink: &mut Sink, thorough: bool, seed: u64) {
     let mut r = Rng::new(seed ^ 0xc15c_15c1);
@@ -373,7 +374,7 @@ pub fn run(sink: &mut Sink, thorough: bool, seed: u64) {
             1 => gen_numeric(&mut r),
             _ => { let d = r.below(5); gen_prog(&mut r, d) }
         };
-        let p = if has_some_key(&p) && !r.chance(1, SOME_KEY_KEEP) { strip_some_keys(&p) } else { p };
+        let p = if has_some_key(&p) && !r.chance(1, if thorough { SOME_KEY_KEEP_THOROUGH } else { SOME_KEY_KEEP }) { strip_some_keys(&p) } else { p };
         let c = Case::new(&p);
         emit_tov(sink, &p, &c);
         emit_agree(sink, &p, &c);
